@@ -279,8 +279,8 @@ def main():
     res = ck.step_generate('Gen_C02', TARGETS)
     if res is not None:
         ck.step_prove('P_C02')
-    n = 480 if ck.thorough() else 32
-    goals = run_cases(ck, res, n, 12 if ck.thorough() else 3)
+    n = 2400 if ck.thorough() else 32
+    goals = run_cases(ck, res, n, 30 if ck.thorough() else 3)
     if res is not None:
         ck.step_interval_goals('corr', goals)
     if ck.broken and not ck.failures:
